@@ -519,6 +519,13 @@ class Gen:
         self.n = 0
         self.versions = rng.choice([[17, 18], [17, 19], [17, 21], [17, 18, 19, 20, 21], [18, 20], [17],
                                     [19, 21], [17, 18, 21], [17, 20]])
+        # sometimes only function bodies are written against the newest module (the model's maximum
+        # is then required by a function body alone)
+        self.func_versions = None
+        if len(self.versions) >= 2 and rng.random() < 0.3:
+            hi = max(self.versions)
+            self.func_versions = [hi]
+            self.versions = [v for v in self.versions if v < hi]
 
     def fresh(self):
         self.n += 1
@@ -577,7 +584,16 @@ class Gen:
                 params = [self.fresh() for _ in range(np_)]
                 save = self.max_depth
                 self.max_depth = min(self.max_depth, 2)
+                save_v = self.versions
+                if self.func_versions:
+                    self.versions = self.func_versions
                 body, bt = self.block(params, set(), 1, 0, in_func=True)
+                if self.func_versions and self.func_versions[0] in PIN:
+                    op_, mv_ = PIN[self.func_versions[0]]
+                    pid = self.fresh()
+                    body["nodes"].append({"id": pid, "op": op_, "mv": mv_, "args": [body["out"]]})
+                    body["out"] = pid
+                self.versions = save_v
                 self.max_depth = save
                 st = {"id": self.fresh(), "op": "func", "name": f"f{next(_uid)}",
                       "domain": rng.choice(["spox.verif", "verif.other"]), "params": params,
